@@ -13,7 +13,9 @@ class Gen:
 
     def rules(self, names):
         self.ver += 1
-        return [{"name": n, "sal": self.rng.choice(SALS), "desc": "v%d" % self.ver, "kind": "ret", "ver": self.ver} for n in names]
+        # the rule named "pd" always FAILS (Pool/Check.v probe_fails): with a failing rule in the set the result map depends on
+        # the execution model, so the model the pool really uses becomes observable
+        return [{"name": n, "sal": self.rng.choice(SALS), "desc": "v%d" % self.ver, "kind": "fail" if n == "pd" else "ret", "ver": self.ver} for n in names]
 
     def op(self, kind=None):
         r = self.rng
@@ -38,14 +40,17 @@ def scenario(sid, mn, mx, ops, gen):
     for o in ops:
         sc["steps"].append(dict(o))
         sc["steps"].append({"op": "snapshot", "probe": RN})
-        held = []
-        for _ in range(mx):
-            rid += 1
-            held.append(rid)
-            sc["steps"].append(req_step(rid, "Execute", [], hold_at="*", wait_ms=-200))
-        for q in held:
-            sc["steps"].append({"op": "release", "id": q})
-        sc["_reqs_per_op"] = mx
+        for method in ("Execute", "ExecuteRulesWithMultiInputWithSpecifiedEM"):      # the sort-model wrapper, then the pool's own model
+            held = []
+            for _ in range(mx):
+                rid += 1
+                held.append(rid)
+                sc["steps"].append(req_step(rid, method, [], hold_at="*", wait_ms=-200))
+            for q in held:
+                sc["steps"].append({"op": "release", "id": q})
+            for q in held:
+                sc["steps"].append({"op": "wait", "id": q})
+        sc["_reqs_per_op"] = 2 * mx
     return sc
 
 
@@ -73,6 +78,18 @@ def make_scenarios(rng, tier):
         for t in ('rule "pz" "vz" begin x = 1 # end', 'rule "pz" begin return 1 end $', 'rule "pa" begin return 1'):
             scs.append(scenario(sid, 2, 3, [{"op": k, "text": t}, g.op("incr")], g))
             sid += 1
+    # the execution model in use: rule sets in which the always-failing rule pd is the top, a middle or the lowest rule, under
+    # each of the four models (set after, and before, the update)
+    def fixed_rules(order):
+        g.ver += 1
+        return [{"name": n, "sal": 9 - 4 * i, "desc": "v%d" % g.ver, "kind": "fail" if n == "pd" else "ret", "ver": g.ver} for i, n in enumerate(order)]
+    for order in (["pd", "pa", "pb"], ["pa", "pd", "pb"], ["pa", "pb", "pd"], ["pd", "pa"], ["pa", "pd"]):
+        for m in (1, 2, 3, 4):
+            scs.append(scenario(sid, 1, 2, [{"op": "update", "rules": fixed_rules(order)}, {"op": "setmodel", "model": m}], g))
+            sid += 1
+    for m in (3, 4):
+        scs.append(scenario(sid, 2, 3, [{"op": "setmodel", "model": m}, {"op": "incr", "rules": fixed_rules(["pd", "pc"])}, {"op": "remove", "names": ["pa"]}], g))
+        sid += 1
     # a pool EMPTIED by removals is not a cleared pool; clearing it afterwards must still clear it
     for tail in ([], ["incr"], ["update"], ["setmodel"]):
         ops = [{"op": "remove", "names": list(RN)}, {"op": "clear"}] + [g.op(k) for k in tail]
@@ -117,26 +134,28 @@ def coq_mg_case(sc, o):
     for i, op in enumerate(sc["ops"]):
         oo = ops_obs[i] if i < len(ops_obs) else {"err": False, "panic": "missing"}
         sn = snaps[i] if i < len(snaps) else None
-        execs = []
-        for _ in range(sc["max"]):
-            rid += 1
-            r = reqs.get(rid)
-            if r is None or not r.get("done"):
-                execs.append(None)
-            else:
-                execs.append(sorted((k, v // 1000000) for k, v in r["result"].items()))
-        panic = bool(oo.get("panic")) or sn is None or bool(sn.get("panic")) or any(e is None for e in execs)
+        execs, em_execs = [], []
+        for batch in (execs, em_execs):
+            for _ in range(sc["max"]):
+                rid += 1
+                r = reqs.get(rid)
+                if r is None or not r.get("done"):
+                    batch.append(None)
+                else:
+                    batch.append(sorted((k, v // 1000000) for k, v in r["result"].items()))
+        panic = bool(oo.get("panic")) or sn is None or bool(sn.get("panic")) or any(e is None for e in execs + em_execs)
         if sn is not None and not sn.get("panic") and sn.get("index_ok") is False:
             INDEX_BAD.append((sc["id"], i))
         if sn is None or sn.get("panic"):
-            snap_t = "mkMS %s true [] [] false 0%%nat [] 0%%nat [] [] []" % coq_bool(oo.get("err", False))
+            snap_t = "mkMS %s true [] [] false 0%%nat [] 0%%nat [] [] [] []" % coq_bool(oo.get("err", False))
         else:
             opt = lambda vals, errs, f: coq_list(["None" if e else "(Some %s)" % f(v) for v, e in zip(vals or [], errs or [])])
-            snap_t = "mkMS %s %s %s %s %s %s %s %s %s %s %s" % (
+            snap_t = "mkMS %s %s %s %s %s %s %s %s %s %s %s %s" % (
                 coq_bool(oo.get("err", False)), coq_bool(panic), coq_rules_of_dump(sn["master_rules"]),
                 coq_list([coq_rules_of_dump(inst["rules"]) for inst in sn["insts"]]), coq_bool(sn["clear"]), coq_nat(sn["model"]),
                 coq_list([coq_bool(b) for b in sn["exist"]]), coq_nat(sn["number"]), opt(sn["sal"], sn["sal_err"], coq_z), opt(sn["desc"], sn["desc_err"], coq_str),
-                coq_list([coq_list(["(%s, %s)" % (coq_str(k), coq_z(v)) for k, v in (e or [])]) for e in execs]))
+                coq_list([coq_list(["(%s, %s)" % (coq_str(k), coq_z(v)) for k, v in (e or [])]) for e in execs]),
+                coq_list([coq_list(["(%s, %s)" % (coq_str(k), coq_z(v)) for k, v in (e or [])]) for e in em_execs]))
         steps.append("(%s, %s)" % (coq_mop(op), snap_t))
         if panic:
             break
@@ -148,6 +167,7 @@ INDEX_BAD = []
 MG_CODES = {28: "the name->position index of the master or of an instance's rule container is inconsistent with its sorted rule list (the next incremental update will edit the wrong slot)",
             21: "the management operation (or a query / execution after it) panicked",
             22: "the operation's error flag differs from the model",
+            29: "an execution through a *SpecifiedEM wrapper did not return what the DENOTED execution model returns on the denoted rule set (one probe rule always fails, so the models differ in what they return)",
             23: "the master rule set is not the set the sequence denotes (names, saliences, descriptions, order)",
             24: "some engine instance holds a different rule set than the master",
             25: "cleared flag or execution model differ",
